@@ -34,6 +34,11 @@ def sh(cmd, cwd=None, timeout=None, env=None):
 
 # failed exits of `sample` that identify one clause of its contract (text of the real return statement)
 ATTRIBUTION = {
+    "matrix": [
+        # the fold over the powers of N and its closure belong to the triangular inverse (C15)
+        {"regex": r"verif_fold\(verif_enumerate\(powers_of_n", "tags": ["C15"]},
+        {"regex": r"ensures o\.wf\(\) && o\.dim == acc\.dim", "tags": ["C15"]},
+    ],
     "sampling": [
         {"regex": r"return Err\(SamplingError::MatrixError", "tags": ["C16"]},
         {"regex": r"SamplingError::GammaError\(e_ctor\)", "tags": ["C12", "C14"]},
